@@ -180,6 +180,11 @@ func c07Plan(e *Env, c Case) *plan {
 	default:
 		p.setupErr = "no recipe for step " + c.Fail
 	}
+	if c.Tbl == "low" {
+		// (only used for launches that must not run the program: the table carries no report pipe)
+		p.lowTable = true
+		r.Args = r.Args[:2]
+	}
 	return p
 }
 
